@@ -9,7 +9,7 @@ git -C /tmp/seedrepo checkout -q --detach $(git -C /repo rev-parse HEAD) 2>/dev/
 git -C /tmp/seedrepo checkout -q -- . ; git -C /tmp/seedrepo clean -fdq
 if [ "$S" != "none" ]; then git -C /tmp/seedrepo apply /verif/seeded/$S/patch.diff || { echo "$S: patch does not apply"; exit 3; }; fi
 mkdir -p /tmp/seedbuild /tmp/seedharness
-rsync -a --delete --exclude target /verif/harness/ /tmp/seedharness/
+rsync -a --delete --exclude target ${HARNESS_SRC:-/verif/harness}/ /tmp/seedharness/
 sed -i 's#path = "/repo"#path = "/tmp/seedrepo"#' /tmp/seedharness/Cargo.toml
 export LD_LIBRARY_PATH="$(cd /tmp/seedharness && rustc --print sysroot)/lib"
 (cd /tmp/seedharness && cargo build --release --target-dir /tmp/seedbuild/harness >/tmp/seedbuild/build.log 2>&1) || { echo "$S: harness build failed"; tail -5 /tmp/seedbuild/build.log; exit 2; }
